@@ -1,5 +1,6 @@
 import Rcgen.Model.Keys
 import Rcgen.Theorems.C01
+import Rcgen.Proofs.Spki
 /-
   C11 — private keys survive save/load and keep their identity and algorithm.
   Model: Model/Keys.lean — the loader cascades and explicit-algorithm chains of key_pair.rs over
@@ -102,6 +103,34 @@ theorem spki_roundtrip :
     its AlgorithmIdentifier is the RFC literal: C01.spki_algid_is_rfc_identifier -/
 theorem spki_algid_rfc (a : SigAlg) : encode (spkiAlgIdent a) = Spec.rfcSpkiAlgId a :=
   C01.spki_algid_is_rfc_identifier a
+
+/-- **`SubjectPublicKeyInfo::from_der` on what `public_key_der` wrote** (and `from_pem` on
+    `public_key_pem`): for every key of every algorithm of the build, whatever its length, the
+    parsed value has the same key octets and an algorithm with the same SubjectPublicKeyInfo
+    AlgorithmIdentifier — the same constant for every key type that determines it -/
+theorem spki_import_of_export (b : Backend) (k : PubKey) (ha : k.alg ∈ publicAlgs b)
+    (hl : (encode (spkiNode k)).length < 256 ^ 126) :
+    ∃ a, spkiFromDer b (spkiDer k) = some ⟨a, k.raw⟩ ∧ spkiAlgIdent a = spkiAlgIdent k.alg ∧
+      (k.alg.keyType ≠ .rsa → a = k.alg) := by
+  obtain ⟨a, h1, h2, h3⟩ := Proofs.Spki.lookup_own b k.alg ha
+  refine ⟨a, ?_, h2, h3⟩
+  unfold spkiFromDer
+  rw [Proofs.Spki.spkiParts_spkiDer k hl]
+  simp only [h1, Option.map_some]
+
+/-- hence the exported SubjectPublicKeyInfo of the parsed value is, byte for byte, the one parsed -/
+theorem spki_reexport (b : Backend) (k k' : PubKey) (ha : k.alg ∈ publicAlgs b)
+    (hl : (encode (spkiNode k)).length < 256 ^ 126) (h : spkiFromDer b (spkiDer k) = some k') :
+    spkiDer k' = spkiDer k := by
+  obtain ⟨a, h1, h2, _⟩ := spki_import_of_export b k ha hl
+  rw [h1] at h
+  cases h
+  simp [spkiDer, spkiNode, h2]
+
+example : spkiFromDer .ring (spkiDer ⟨.ecdsaP384, [4, 1, 2]⟩) = some ⟨.ecdsaP384, [4, 1, 2]⟩ := by
+  decide +kernel
+example : spkiFromDer .ring (spkiDer ⟨.rsaSha512, [48, 0]⟩) = some ⟨.rsaSha256, [48, 0]⟩ := by
+  decide +kernel
 
 /-! non-vacuity: a mismatched pair that is refused, a matching one that loads -/
 example : loadPkcs8With .ring .ecdsaP256 ⟨.pkcs8v1, .p384⟩ = .err .keyRejected := by decide
